@@ -144,21 +144,80 @@ theorem included_tx_committed (rules : Rules) (h : Handler) (prices : List Nat) 
     · simp at hinc
   · simp at hinc
 
-/-- a block in which nothing was appended has charged nobody -/
+/-- a built block in which nothing was appended has charged nobody -/
 theorem nothing_included_nothing_charged (rules : Rules) (h : Handler) (prices : List Nat) (now : Int)
-    (maxUnits : List Nat) : ∀ (txs : List ((Key → Nat) × Tx)) (s : Block × List Nat),
-    (∀ o ∈ (builderBlock rules h prices now maxUnits txs s).2, o = none) →
-    (builderBlock rules h prices now maxUnits txs s).1 = s := by
+    (maxUnits : List Nat) : ∀ (txs : List ((Key → Nat) × Tx)) (s : Block × List Nat)
+    (out : (Block × List Nat) × List (Option Result)),
+    builderBlock rules h prices now maxUnits txs s = .ok out →
+    (∀ o ∈ out.2, o = none) → out.1 = s := by
   intro txs
   induction txs with
-  | nil => intro s _; simp [builderBlock]
+  | nil => intro s out hb _; simp [builderBlock] at hb; rw [← hb]
   | cons p rest ih =>
-    intro s hall
-    simp only [builderBlock] at hall ⊢
-    have h1 : (builderStep rules h prices now maxUnits p s).2 = none := hall _ (by simp)
-    have h2 := skipped_tx_not_charged rules h prices now maxUnits p s h1
-    rw [h2] at hall ⊢
-    exact ih s (fun o ho => hall o (by simp [ho]))
+    intro s out hb hall
+    simp only [builderBlock] at hb
+    split at hb
+    · simp at hb
+    · split at hb
+      · simp at hb
+      · rename_i out' hrest
+        simp at hb
+        subst hb
+        simp only at hall ⊢
+        have h1 : (builderStep rules h prices now maxUnits p s).2 = none := hall _ (by simp)
+        have h2 := skipped_tx_not_charged rules h prices now maxUnits p s h1
+        rw [h2] at hrest
+        exact ih s out' hrest (fun o ho => hall o (by simp [ho]))
+
+/-- **C07 (abort)** `BuildBlock` returns an error — no block at all — exactly when some streamed
+transaction passes `PreExecute` on the state built so far and then makes `Execute` return an
+error; by C03's `execute_error_after_preexecute_ok` that is a zero-fee transaction whose sponsor
+has no balance record. (Known finding `build-aborts-on-zero-fee-absent-sponsor`.) -/
+theorem build_abort_cause (rules : Rules) (h : Handler) (prices : List Nat) (now : Int)
+    (maxUnits : List Nat) : ∀ (txs : List ((Key → Nat) × Tx)) (s : Block × List Nat) (e : Err),
+    builderBlock rules h prices now maxUnits txs s = .error e →
+    ∃ p ∈ txs, ∃ s', builderAbort rules h prices now p s' = some e := by
+  intro txs
+  induction txs with
+  | nil => intro s e hb; simp [builderBlock] at hb
+  | cons p rest ih =>
+    intro s e hb
+    simp only [builderBlock] at hb
+    split at hb
+    · rename_i e' ha
+      simp at hb; subst hb
+      exact ⟨p, by simp, s, ha⟩
+    · split at hb
+      · rename_i e' hrest
+        simp at hb; subst hb
+        obtain ⟨q, hq, s', hs'⟩ := ih _ e' hrest
+        exact ⟨q, by simp [hq], s', hs'⟩
+      · simp at hb
+
+/-- `processorAccepts` is `processorOutcome` without the reason -/
+theorem processorAccepts_eq_outcome (rules : Rules) (h : Handler) (prices : List Nat) (now : Int)
+    (scope : Key → Nat) (consumed maxUnits : List Nat) (tx : Tx) (cur : Store) :
+    processorAccepts rules h prices now scope consumed maxUnits tx cur =
+      (processorOutcome rules h prices now scope consumed maxUnits tx cur).toOption.map (·.2.2) := by
+  unfold processorAccepts processorOutcome
+  cases tx.units with
+  | none => rfl
+  | some units =>
+    simp only
+    cases consume consumed units maxUnits with
+    | none => simp [Except.toOption]
+    | some c' =>
+      simp only [Option.isNone_some, Bool.false_eq_true, if_false]
+      rcases processTx rules h prices now scope tx cur with ⟨c, o⟩
+      cases o <;> rfl
+
+/-- `admits` is `admitOutcome` without the reason -/
+theorem admits_eq_outcome (rules : Rules) (h : Handler) (prices : List Nat) (now : Int)
+    (scope : Key → Nat) (isRepeat authOk : Bool) (tx : Tx) (cur : Store) :
+    admits rules h prices now scope isRepeat authOk tx cur =
+      (admitOutcome rules h prices now scope isRepeat authOk tx cur).isNone := by
+  unfold admits admitOutcome
+  cases isRepeat <;> cases authOk <;> cases tx.units <;> simp
 
 /-- the single-transaction decision `builderIncludes` is one `builderStep` on a fresh block -/
 theorem builderIncludes_eq_step (rules : Rules) (h : Handler) (prices : List Nat) (now : Int)
